@@ -124,7 +124,8 @@ def PathInst.makeFeasible (P : PathInst) (high : Rat) (pick : Nat â†’ List Nat â
         let loading := init - Q.g.demand u
         let newLoad : Rat := if loading < 0 then -loading else if cap < loading then cap - loading else 0
         let nm := freshDummy Q.g u (Q.g.nodes.length + 1) ("mf_Dum_" ++ toString u)
-        match addNodeStep Q.g nm (-newLoad) 0 none with
+        -- window `(depot window start, inf)` (repaired; the pinned code used the default `(0, inf)`)
+        match addNodeStep Q.g nm (-newLoad) (Q.g.lo 0) none with
         | (_, .error e) => .error e          -- name still taken: `add_node` raises
         | (g1, .ok _) =>
         let k := g1.nodes.length - 1
